@@ -292,7 +292,7 @@ def explore(fn, budget_s=60.0, per_path_s=20.0, max_paths=10**9, validate=None,
                         else:
                             verdict = 'VIOLATED ' + str(_peek(ret, None))[:400]
                 model = _model()
-                witness = {k: _peek(v, model) for k, v in pre_args.arguments.items()}
+                witness = {k: _peek(v, model) for k, v in args.arguments.items()}
                 for k, v in FRESH:
                     witness[k] = _peek(v, model)
                 if isinstance(ret, Fail) and ret.witness:
